@@ -22,7 +22,7 @@ def run(ctx):
         (Wd.carrier_programs(4, ("space", [16, 8, 0], True)) + Wd.carrier_programs(6, limit=300, rng=ctx.rng) if not q else [])
     _world.validate_programs(ctx, progs, "3..6 carriers of the same component types join, then leave in every order (each permutation), first leaver re-joins")
     n = 250 if q else 2500
-    runs = _world.random_runs(ctx, n, kinds=ALLK, mods="clean", length=50, weights=NOQ, n_ids=5, guests=True)
+    runs = _world.random_runs(ctx, n, kinds=ALLK, mods="clean", length=50, weights=NOQ, n_ids=5, guests=True, late_install=True)
     _world.validate_runs(ctx, runs, "random histories, components changed only while not resident, 5 world kinds, 2 models")
     runs = _world.random_runs(ctx, n, kinds=ALLK, mods="sanctioned", length=40, weights=NOQ)
     _world.validate_runs(ctx, runs, "random histories, residents modified with the explicit register/deregister calls", expect_clean=False)
